@@ -300,6 +300,9 @@ class Stats:
         self.or_known = 0
         self.dir_cases = 0
         self.dir_bad = 0
+        self.mono_pairs = 0
+        self.mono_bad = 0
+        self.wrap_bad = 0
         self.reach = {}
         self.cover = set()       # (option, configured value) seen in SP records
         self.cover_line = set()  # same, pair on one output line (oracle evaluated)
@@ -343,6 +346,28 @@ def check_batch(ctx, exe, tr, jobs, st):
             continue
         st.runs_ok += 1
         vals = j.vals
+        # monitor for C19_line_monotone / C19_reindent_shift_exact: after space_text() the columns along a line never go to the left
+        # (pair (a, b) on one line, a carrying no line break), and after indent_text() no column has wrapped below zero (size_t)
+        if not unc.bool01(vals.get("indent_relative_single_line_comments", "false")):
+            for ca, cb in zip(v.pa, v.pa[1:]):
+                st.mono_pairs += 1
+                if ca["t"] not in NL_TYPES and ca["nl"] == 0 and cb["t"] not in NL_TYPES and cb["col"] < ca["col"] + len(ca["txt"]):
+                    st.mono_bad += 1
+                    if st.mono_bad <= 2:
+                        ctx.violation("after space_text() the chunk '%s' (orig line %d) stands at column %d, left of the end of the chunk before it "
+                                      "('%s' at column %d): the columns of a line are not monotonic (theorem C19_line_monotone does not describe "
+                                      "this run) [%s]" % (txt(cb), cb["ol"], cb["col"], txt(ca), ca["col"], j.name),
+                                      {"input": j.meta.get("src"), "config": j.meta.get("cfg"), "options": j.meta.get("sp"), "lang": j.lang},
+                                      key=None, found_input=True)
+        for c in v.p1:
+            if c["col"] >= 1 << 31:
+                st.wrap_bad += 1
+                if st.wrap_bad <= 2:
+                    ctx.violation("after indent_text() the chunk '%s' (orig line %d) has column %d: a column wrapped below zero [%s]"
+                                  % (txt(c), c["ol"], c["col"], j.name),
+                                  {"input": j.meta.get("src"), "config": j.meta.get("cfg"), "options": j.meta.get("sp"), "lang": j.lang},
+                                  key=None, found_input=True)
+                break
         dg = digits_for(optnames, vals)
         dg_qt = digits_for(optnames, vals, qt) if str(vals.get("use_options_overriding_for_qt_macros", "true")).lower() == "true" else dg
         rel = unc.bool01(vals.get("indent_relative_single_line_comments", "false"))
@@ -553,6 +578,8 @@ def finish_dynamic(ctx, tr, st, njobs):
                % st.dir_cases, st.dir_bad == 0, "oracle", "%d violations" % st.dir_bad)
     ctx.oblige("direct oracle: emitted whitespace obeys the named option on %d pairs on one output line (%d known findings)"
                % (st.or_cases, st.or_known), st.or_bad == 0, "oracle", "%d violations" % st.or_bad)
+    ctx.oblige("monitor: columns after space_text() are monotonic along every line (%d adjacent pairs), no column wrapped after indent_text()"
+               % st.mono_pairs, st.mono_bad == 0 and st.wrap_bad == 0, "monitor", "%d / %d" % (st.mono_bad, st.wrap_bad))
     reached = {o for o, _ in st.cover}
     full = [o for o in reached if all((o, x) in st.cover for x in IARF_NAMES)]
     ctx.cov["options_reached"] = len(reached)
